@@ -169,7 +169,8 @@ def build_harness(flavor="asan", extra_flags=(), extra_sources=(), exe_name=None
         spec, gen_files = harness_gen.generate(hdir)
         flags = FLAVORS[flavor] + list(extra_flags) + ["-w", "-I", os.path.join(REPO, "include"),
                                                         "-I", os.path.join(VERIF, "harness")]
-        srcs = repo_sources() + gen_files + sorted(glob.glob(os.path.join(VERIF, "harness", "*.c"))) + list(extra_sources)
+        srcs = repo_sources() + gen_files + sorted(f for f in glob.glob(os.path.join(VERIF, "harness", "*.c"))
+                                                   if not f.endswith("_main.c")) + list(extra_sources)
         odir = os.path.join(hdir, "obj")
         os.makedirs(odir, exist_ok=True)
 
@@ -336,7 +337,7 @@ class Report:
                 self.known_hit.append((key, known[key].get("what", "")))
             return
         path = os.path.join(REPLAYS, "%s-%s.json" % (self.prop, re.sub(r"[^A-Za-z0-9_.-]+", "_", key)[:80]))
-        payload = dict(payload)
+        payload = jsonable(dict(payload))
         payload.update(property=self.prop, key=key, how_to_replay="./check %s --replay %s" % (self.prop, os.path.relpath(path, VERIF)))
         json.dump(payload, open(path, "w"), indent=1)
         self.violations.append((key, os.path.relpath(path, VERIF), no_input))
@@ -358,6 +359,16 @@ class Report:
         json.dump(ev, open(os.path.join(EVID, self.prop + ".json"), "w"), indent=1)
         sys.stdout.flush()
         return 1 if seen else 0
+
+
+def jsonable(x):
+    if isinstance(x, (bytes, bytearray)):
+        return bytes(x).hex()
+    if isinstance(x, dict):
+        return {str(k): jsonable(v) for k, v in x.items()}
+    if isinstance(x, (list, tuple, set)):
+        return [jsonable(v) for v in x]
+    return x
 
 
 def rng_for(prop, seed):
